@@ -7,10 +7,16 @@ import sys
 from pathlib import Path
 
 VERIF = Path(__file__).resolve().parent.parent
-src_root = Path(sys.argv[1])
-only = set(sys.argv[2:])
+args = sys.argv[1:]
+tag = ''
+if '--tag' in args:
+    i = args.index('--tag')
+    tag = args[i + 1]
+    del args[i:i + 2]
+src_root = Path(args[0])
+only = set(args[1:])
 for pdir in sorted(src_root.glob('C*/[0-9]*')):
-    sid = f'{pdir.parent.name}-{pdir.name}'
+    sid = f'{pdir.parent.name}-{tag}{pdir.name}'
     if only and sid not in only:
         continue
     cj = pdir / 'confirm.json'
